@@ -829,6 +829,62 @@ class BaseInterpreter(Generic[TContext, TEvent]):
                 return produced
         return None
 
+    @staticmethod
+    def _validate_snapshot_shape(snapshot: Dict[str, Any]) -> None:
+        """Rejects a decoded snapshot whose fields have the wrong shape.
+
+        Args:
+            snapshot (Dict[str, Any]): The decoded JSON object.
+
+        Raises:
+            InvalidConfigError: Naming the first field that is missing or
+                malformed.
+        """
+
+        def _fail(problem: str) -> None:
+            raise InvalidConfigError(f"Snapshot is malformed: {problem}.")
+
+        def _is_id_list(value: Any) -> bool:
+            return isinstance(value, list) and all(
+                isinstance(item, str) for item in value
+            )
+
+        if not isinstance(snapshot.get("context"), dict):
+            _fail("'context' must be an object")
+        if snapshot.get("status") not in (
+            "uninitialized",
+            "running",
+            "done",
+            "error",
+            "stopped",
+        ):
+            _fail(f"unknown 'status' {snapshot.get('status')!r}")
+        if "configuration" not in snapshot and "state_ids" not in snapshot:
+            _fail("neither 'configuration' nor 'state_ids' is present")
+        for key in ("configuration", "state_ids"):
+            if key in snapshot and not _is_id_list(snapshot[key]):
+                _fail(f"'{key}' must be a list of state ids")
+        history = snapshot.get("history") or {}
+        if not isinstance(history, dict) or not all(
+            _is_id_list(ids) for ids in history.values()
+        ):
+            _fail("'history' must map a state id to a list of state ids")
+        actors = snapshot.get("actors") or {}
+        if not isinstance(actors, dict):
+            _fail("'actors' must be an object")
+        for actor_id, record in actors.items():
+            if (
+                not isinstance(record, dict)
+                or not isinstance(record.get("snapshot"), dict)
+                or not isinstance(record.get("src"), (str, type(None)))
+            ):
+                _fail(f"actor record '{actor_id}' is not a persisted actor")
+        system = snapshot.get("system") or {}
+        if not isinstance(system, dict) or not all(
+            isinstance(actor_id, str) for actor_id in system.values()
+        ):
+            _fail("'system' must map a systemId to an actor id")
+
     @classmethod
     def from_snapshot(
         cls: Type["BaseInterpreter[Any, Any]"],
@@ -884,6 +940,12 @@ class BaseInterpreter(Generic[TContext, TEvent]):
                 f"Snapshot must decode to a JSON object, got "
                 f"{type(snapshot).__name__}."
             )
+
+        # 🧱 Validate the shape before touching anything. Wrong-typed or
+        #    missing fields used to surface as a raw KeyError / TypeError /
+        #    AttributeError from the lines below - or were accepted, leaving
+        #    an interpreter whose `status` was not a status at all.
+        cls._validate_snapshot_shape(snapshot)
 
         # 🧪 Create a new instance of the correct interpreter class (sync/async)
         interpreter = cls(machine)
